@@ -20,8 +20,8 @@ def jobs(tier):
     q = tier == "quick"
     J = []
     for hm in (2, 0, 3, 1):
-        J.append(seq(len=8 if q else 10, keys=2, hmap=hm, workers=16))
-        J.append(seq(len=6 if q else 7, keys=3 if hm != 1 else 4, hmap=hm, workers=16))
+        J.append(seq(len=8 if q else 12, keys=2, hmap=hm, workers=16))
+        J.append(seq(len=6 if q else 8, keys=3 if hm != 1 else 4, hmap=hm, workers=16))
     # every allocator x flags x custom allocator (AUTO_RESIZE ones have a worker thread)
     J.append(seq(len=4 if q else 5, keys=2, hmap=2, mm=-1, flags=-1, custom=-1, workers=16))
     J.append(seq(len=4 if q else 5, keys=2, hmap=1, mm=-1, flags=-1, custom=0, init=2, minb=2, maxb=4, workers=16))
@@ -56,6 +56,6 @@ TECHNIQUE = ("explicit-state enumeration of all operation sequences up to a dept
              "table, pruned at canonical states), every step compared with a reference multimap")
 LEVEL_TEXT = ("Every operation sequence up to the stated depth, for every enumerated configuration, is executed on the real code and compared "
               "step by step with a reference multimap; exhaustive within the depth bound.")
-LEVEL_NOTE = ("Trusted: the reference multimap, the canonical-state key used for pruning. Bounds: depth 8 (2 keys) / 6 (3-4 keys) quick, 10 / 7 "
+LEVEL_NOTE = ("Trusted: the reference multimap, the canonical-state key used for pruning. Bounds: depth 8 (2 keys) / 6 (3-4 keys) quick, 12 / 8 "
               "thorough; configuration grid at depth 1 quick, 2 thorough; hashes from 4 adversarial maps (all equal, straddling a split, "
               "0 / ~0 / top bit only, distinct).")
